@@ -1323,7 +1323,7 @@ def contains(E, container, item):
 
 def new_smap(E, name):
     nm = E.path.fresh_name(name)
-    has = z3.Array(nm + '.has', z3.IntSort(), z3.BoolSort())
+    has = z3.Array(E.path.fresh_name(nm + '.has'), z3.IntSort(), z3.BoolSort())      # registered: see aio.new_symbolic_queue
     m = SMap(has, None, nm)
     return m
 
@@ -1908,6 +1908,62 @@ class SymRange(SymIter):
             E.exec_block(node.orelse, env)
 
 
+class SymList(SymIter):
+    """A Python list of queue items with a symbolic number of elements: ids arr[0..n-1].  Created by a loop contract's havoc
+    for a list the loop appends to; `append`, `len` and a for-loop over it (cut like a symbolic range, element k = arr[k])."""
+
+    def __init__(self, arr, n, name):
+        self.arr, self.n, self.name = arr, n, name
+
+    def cut(self, E, node, env, spec, qual, k):
+        from . import engine as ENG_
+        from . import aio as _aio
+        tag = '%s#loop%d' % (qual, k)
+        entry = E.snapshot(env)
+        g = {}
+        ctx0 = ENG_.LoopCtx(E, env, 0, entry, 'entry')
+        ctx0.ghost = g
+        for name, e in spec.invariant(ctx0):
+            E.prove('%s.inv_entry[%s]' % (tag, name), e)
+        mode = E.path.choice(2, 'loop%d' % k)
+        kk = E.fresh_int('k.%s' % k, 0)
+        n = I(self.n)
+        E.assume(I(kk) <= n)
+        hctx = ENG_.LoopCtx(E, env, kk, entry, 'head')
+        hctx.ghost = g
+        E.havoc_loop(node, env, spec, hctx)
+        E.path.ghost.setdefault('loops', {})[(qual, k)] = hctx
+        for name, e in spec.invariant(hctx):
+            E.assume(e)
+        if mode == 0:
+            E.assume(I(kk) < n)
+            E.assign(node.target, _aio.registry(E).obj_of(z3.Select(self.arr, I(kk)), '%s[%s]' % (self.name, kk)), env)
+            try:
+                E.exec_block(node.body, env)
+            except BreakSig:
+                return
+            except ContinueSig:
+                pass
+            ctx1 = ENG_.LoopCtx(E, env, mk_int(I(kk) + 1), entry, 'step')
+            ctx1.ghost = g
+            for name, e in spec.invariant(ctx1):
+                E.prove('%s.inv_preserved[%s]' % (tag, name), e)
+            raise PathEnd('end of arbitrary iteration')
+        else:
+            E.assume(I(kk) == n)
+            E.exec_block(node.orelse, env)
+
+
+def symlist_attr(E, v, name):
+    from . import aio as _aio
+    if name == 'append':
+        def append(x):
+            v.arr = z3.Store(v.arr, I(v.n), _aio.registry(E).id_of(x))
+            v.n = mk_int(z3.simplify(I(v.n) + 1))
+        return Builtin('list.append', append)
+    raise Unsupported('list.%s on a list of symbolic length' % name)
+
+
 class SMapItems(SymIter):
     """Snapshot iteration over the items of a symbolic map (for k, v in list(m.items())).
 
@@ -1974,6 +2030,8 @@ def value_attr(E, obj, name):
         return str_attr(E, obj, name)
     if isinstance(obj, list):
         return list_attr(E, obj, name)
+    if isinstance(obj, SymList):
+        return symlist_attr(E, obj, name)
     if isinstance(obj, dict):
         return dict_attr(E, obj, name)
     if isinstance(obj, SMap):
@@ -2207,6 +2265,8 @@ def make_builtins(E):
             return mk_int(ss['t'] - ss['h'])
         if isinstance(v, SymSeq):
             return mk_int(v.hi - v.lo)
+        if isinstance(v, SymList):
+            return v.n
         if isinstance(v, (SBytes, SByteArray)):
             n = lift_bytes(v).n
             return n if isinstance(n, int) else mk_int(n)
